@@ -242,16 +242,23 @@ Proof.
   assert (ML := qmax_l (Qabs l) (Qabs u)). assert (MR := qmax_r (Qabs l) (Qabs u)).
   set (M := qmax (Qabs l) (Qabs u)) in *.
   assert (B : - M <= x <= M).
-  { destruct (qabs_cases l) as [[Pl El]|[Nl El]]; destruct (qabs_cases u) as [[Pu Eu]|[Nu Eu]]; split; lra. }
-  nra.
+  { assert (Al := Qle_Qabs l). assert (Au := Qle_Qabs u).
+    assert (Bl : - Qabs l <= l) by (destruct (qabs_cases l) as [[? E]|[? E]]; lra).
+    split; lra. }
+  assert (0 <= M + x) by lra. assert (0 <= M - x) by lra.
+  setoid_replace (M * M) with (x * x + (M + x) * (M - x)) by ring.
+  assert (0 <= (M + x) * (M - x)) by (apply Qmult_le_0_compat; auto). lra.
 Qed.
+
+Lemma hyp2_cons x xs : hyp2 (x :: xs) = x * x + hyp2 xs.
+Proof. reflexivity. Qed.
 
 Lemma hypot_fixed_sound (ss : list (Q * Q)) (xs : list Q) :
   Forall2 (fun iv x => fst iv <= x <= snd iv) ss xs ->
   fst (hypot_support_fixed2 ss) <= hyp2 xs <= snd (hypot_support_fixed2 ss).
 Proof.
-  unfold hypot_support_fixed2. simpl.
-  induction 1 as [|[l u] x ss xs H _ IH]; simpl.
-  - lra.
-  - simpl in H. assert (A := minabs_sound l u x H). assert (B := maxabs_sound l u x H). lra.
+  unfold hypot_support_fixed2. cbn [fst snd].
+  induction 1 as [|[l u] x ss xs H _ IH].
+  - cbn. lra.
+  - rewrite !map_cons, !hyp2_cons. cbn [fst snd] in H. assert (A := minabs_sound l u x H). assert (B := maxabs_sound l u x H). lra.
 Qed.
